@@ -7,9 +7,11 @@ import (
 	"log"
 	"math/rand"
 	"os"
+	"sort"
 	"strings"
 	"sync"
 
+	"go4.org/jsonconfig"
 	"perkeep.org/pkg/blob"
 	"perkeep.org/pkg/blobserver/memory"
 	"perkeep.org/pkg/index"
@@ -22,24 +24,29 @@ import (
 )
 
 type caseRec struct {
-	CaseID  string         `json:"case_id"`
-	World   map[string]any `json:"world"`
-	Blobs   []string       `json:"blobs"`
-	Order   []int          `json:"order"`
-	Prefix  int            `json:"prefix_len"`
-	Corpus  bool           `json:"live_has_corpus"`
-	KV      string         `json:"kv"`
-	Prefill bool           `json:"prefill"`
-	Diffs   []string       `json:"diffs,omitempty"`
+	CaseID    string         `json:"case_id"`
+	Family    string         `json:"family,omitempty"`
+	World     map[string]any `json:"world"`
+	Blobs     []string       `json:"blobs"`
+	Order     []int          `json:"order"`
+	Prefix    int            `json:"prefix_len"`
+	Corpus    bool           `json:"live_has_corpus"`
+	KV        string         `json:"kv"`
+	Prefill   bool           `json:"prefill"`
+	RestartAt int            `json:"restart_before_position,omitempty"`
+	Dups      map[int][]int  `json:"redeliveries,omitempty"`
+	Lanes     int            `json:"concurrent_deliverers,omitempty"`
+	Diffs     []string       `json:"diffs,omitempty"`
 }
 
 func main() {
 	ev.Main("C06", "exploration",
-		"generated blob sets (as C05) delivered in seeded orders; at every sampled prefix (all prefixes for short histories), after the asynchronous reindexers quiesce, a grid of lookups (GetBlobMeta, IsDeleted, AppendClaims, attribute values at a grid of times/signers, modtimes, file/dir info, paths, edges, recent/ordered permanodes, attr search) is asked of the live index(+corpus) and of a fresh index(+corpus) opened over a copy of the same rows; distinct = (world, order, prefix, mode); non-trivial = prefix contains at least one claim",
+		"generated blob sets (as C05, plus directed ones: delete/undelete chains in every arrival order, tied claim dates, oversized indexed values, node types, image/EXIF/media files) delivered in seeded orders with mid-history re-opens of the live index, re-deliveries and concurrent deliverers; at every sampled prefix (all prefixes for short histories), after the asynchronous reindexers quiesce, a grid of lookups (blob meta, deletion status, claims, attribute values at a grid of times/signers, modtimes, file/image/media/dir info, paths, edges, recent/ordered permanodes, per-type enumerations, attr search, search-handler queries) is asked of the live index(+corpus) and of a fresh index(+corpus) opened over a copy of the same rows (and, for file-backed KVs, over the closed and re-opened file); distinct = (world, order, prefix, mode); non-trivial = prefix contains at least one claim",
 		run)
 }
 
 type job struct {
+	family  string
 	w       *hw.World
 	wid     string
 	order   []int
@@ -47,26 +54,79 @@ type job struct {
 	kv      string
 	prefill bool
 	every   int // probe every n-th prefix (1 = all)
+	// restartAt > 0: before position restartAt is delivered the live index is abandoned and a new
+	// one is opened over the same KV (for file-backed KVs the file is closed and re-opened):
+	// from then on the live side is "loaded from rows, then updated incrementally".
+	restartAt int
+	// dups[p] lists positions q <= p whose blob is delivered once more right after position p.
+	dups map[int][]int
+	// lanes > 1: the arrivals between two probe points are dealt to that many concurrent deliverers.
+	lanes int
+	// search: ask the search-handler queries at the last prefix (corpus mode only).
+	search bool
+	// light: time-ordering probes at the prefixes that get no full probe
+	light bool
 }
 
-func newKV(kind, dir string) (sorted.KeyValue, func(), error) {
+// kvHandle is a sorted.KeyValue that can be closed and re-opened (file-backed kinds).
+type kvHandle struct {
+	kind string
+	conf jsonconfig.Obj
+	dir  string
+	kv   sorted.KeyValue
+}
+
+func newKV(kind, dir string) (*kvHandle, error) {
 	if kind == "" || kind == "memory" {
-		return sorted.NewMemoryKeyValue(), func() {}, nil
+		return &kvHandle{kind: "memory", kv: sorted.NewMemoryKeyValue()}, nil
 	}
 	d, err := os.MkdirTemp(dir, "kv")
 	if err != nil {
-		return nil, nil, err
+		return nil, err
 	}
 	env := &sto.Env{Dir: d}
 	conf, _, err := env.KVConf(kind, "c06")
 	if err != nil {
-		return nil, nil, err
+		return nil, err
 	}
-	kv, err := sorted.NewKeyValue(conf)
+	h := &kvHandle{kind: kind, conf: conf, dir: d}
+	if err := h.open(); err != nil {
+		os.RemoveAll(d)
+		return nil, err
+	}
+	return h, nil
+}
+
+func (h *kvHandle) open() error {
+	c := jsonconfig.Obj{}
+	for k, v := range h.conf {
+		c[k] = v
+	}
+	kv, err := sorted.NewKeyValue(c)
 	if err != nil {
-		return nil, nil, err
+		return err
 	}
-	return kv, func() { kv.Close(); os.RemoveAll(d) }, nil
+	h.kv = kv
+	return nil
+}
+
+// reopen closes the file-backed KV and opens it again (a no-op for memory).
+func (h *kvHandle) reopen() error {
+	if h.kind == "memory" {
+		return nil
+	}
+	if err := h.kv.Close(); err != nil {
+		return fmt.Errorf("close: %w", err)
+	}
+	return h.open()
+}
+
+func (h *kvHandle) done() {
+	if h.kind == "memory" {
+		return
+	}
+	h.kv.Close()
+	os.RemoveAll(h.dir)
 }
 
 func method(q string) string {
@@ -76,23 +136,56 @@ func method(q string) string {
 	return q
 }
 
+// tiedPermanodes returns the permanodes that have two claims with exactly the same date.
+func tiedPermanodes(w *hw.World) map[blob.Ref]bool {
+	seen := map[string]bool{}
+	out := map[blob.Ref]bool{}
+	for _, c := range w.Claims {
+		if c.Kind == "delete" {
+			continue
+		}
+		k := fmt.Sprintf("%v|%d", c.PN, c.Date.UnixNano())
+		if seen[k] {
+			out[c.PN] = true
+		}
+		seen[k] = true
+	}
+	return out
+}
+
+func (j *job) modeNotes(r *ev.Run) {
+	if j.restartAt > 0 {
+		r.Note("history_modes", "mid-history-reopen")
+	}
+	if len(j.dups) > 0 {
+		r.Note("history_modes", "re-delivery")
+	}
+	if j.lanes > 1 {
+		r.Note("history_modes", "concurrent-deliverers")
+	}
+	if j.restartAt == 0 && len(j.dups) == 0 && j.lanes <= 1 {
+		r.Note("history_modes", "plain")
+	}
+}
+
 func runJob(r *ev.Run, j job, root string, sampleMu *sync.Mutex, sampled *int) {
-	kv, closeKV, err := newKV(j.kv, root)
+	h, err := newKV(j.kv, root)
 	if err != nil {
 		r.Inconclusive("kv: " + err.Error())
 		return
 	}
-	defer closeKV()
+	defer h.done()
 	ms := &memory.Storage{}
 	if j.prefill {
 		sto.StoreAll(ms, j.w.Blobs)
 	}
-	live, err := hw.NewIdx(kv, ms, j.corpus)
+	live, err := hw.NewIdx(h.kv, ms, j.corpus)
 	if err != nil {
 		r.Inconclusive("index.New: " + err.Error())
 		return
 	}
 	opts := hw.WorldProbeOpts(j.w)
+	tied := tiedPermanodes(j.w)
 	delivered := map[blob.Ref]int{}
 	delBeforeTarget := false
 	nClaims := 0
@@ -100,30 +193,149 @@ func runJob(r *ev.Run, j job, root string, sampleMu *sync.Mutex, sampled *int) {
 	if j.corpus {
 		mode = "corpus"
 	}
-	for pos, bi := range j.order {
-		b := j.w.Blobs[bi]
-		if err := live.Deliver(b); err != nil {
-			r.Violation("delivery-error/"+mode, fmt.Sprintf("world %s: deliver %v: %v", j.wid, b.Ref, err), caseRec{CaseID: j.wid, Order: j.order, Prefix: pos})
+	rec := func(prefix int, diffs []string) caseRec {
+		c := caseRec{CaseID: j.wid, Family: j.family, World: j.w.Describe(), Order: j.order, Prefix: prefix, Corpus: j.corpus, KV: j.kv, Prefill: j.prefill,
+			RestartAt: j.restartAt, Dups: j.dups, Lanes: j.lanes, Diffs: diffs}
+		for i, bb := range j.w.Blobs {
+			c.Blobs = append(c.Blobs, fmt.Sprintf("%d:%s:%s", i, j.w.Kind[bb.Ref], bb.Ref))
+		}
+		if len(c.Diffs) > 12 {
+			c.Diffs = c.Diffs[:12]
+		}
+		return c
+	}
+	// report files every differing question under live-vs-<what>/<mode>/<method>[/<history feature>]
+	report := func(what string, prefix int, diffs []string) {
+		rc := rec(prefix, diffs)
+		seen := map[string]bool{}
+		for _, d := range diffs {
+			m := method(d)
+			sig := what + "/" + mode + "/" + m
+			if delBeforeTarget {
+				sig += "/delete-before-target"
+			}
+			// tied claim dates on one permanode: a class of its own, but only for a question that
+			// is about such a permanode
+			q := d
+			if i := strings.Index(d, " :: "); i > 0 {
+				q = d[:i]
+			}
+			for pn := range tied {
+				if strings.Contains(q, pn.String()) {
+					sig = what + "/tied-claim-dates/" + mode + "/" + m
+					break
+				}
+			}
+			if seen[sig] {
+				continue
+			}
+			seen[sig] = true
+			r.Violation(sig, fmt.Sprintf("world %s, after %d of %d arrivals: %s", j.wid, prefix, len(j.order), clip(d, 600)), rc)
+		}
+	}
+	deliverPos := func(x *hw.Idx, p int) error {
+		b := j.w.Blobs[j.order[p]]
+		if err := x.Deliver(b); err != nil {
+			return fmt.Errorf("deliver #%d %v (%s): %w", p, b.Ref, j.w.Kind[b.Ref], err)
+		}
+		for _, q := range j.dups[p] {
+			b := j.w.Blobs[j.order[q]]
+			if err := x.Deliver(b); err != nil {
+				return fmt.Errorf("re-deliver #%d (after #%d) %v (%s): %w", q, p, b.Ref, j.w.Kind[b.Ref], err)
+			}
+		}
+		return nil
+	}
+	restarted := false
+	var batch []int
+	j.modeNotes(r)
+	for pos := range j.order {
+		batch = append(batch, pos)
+		last := pos == len(j.order)-1
+		probePoint := (pos+1)%j.every == 0 || last
+		if j.lanes > 1 && !probePoint {
+			continue
+		}
+		// ---- mid-history re-open
+		if j.restartAt > 0 && !restarted && batch[0] >= j.restartAt {
+			restarted = true
+			live.Quiesce()
+			if err := h.reopen(); err != nil {
+				r.Inconclusive(fmt.Sprintf("world %s: re-opening the %s KV: %v", j.wid, j.kv, err))
+				return
+			}
+			nl, err := hw.NewIdx(h.kv, ms, j.corpus)
+			if err != nil {
+				r.Violation("reload-fails/"+mode, fmt.Sprintf("world %s before position %d: re-opening the index over its own rows failed: %v", j.wid, batch[0], err), rec(batch[0], nil))
+				return
+			}
+			live = nl
+			r.Count("mid_history_reopens", 1)
+			if n1, _, _ := live.Index.VerifPending(); n1 > 0 {
+				r.Count("mid_history_reopens_with_pending_dependencies", 1)
+			}
+		}
+		// ---- deliver the batch
+		var derr error
+		if len(batch) == 1 || j.lanes <= 1 {
+			for _, p := range batch {
+				if derr = deliverPos(live, p); derr != nil {
+					break
+				}
+			}
+		} else {
+			var wg sync.WaitGroup
+			errs := make([]error, j.lanes)
+			for g := 0; g < j.lanes; g++ {
+				wg.Add(1)
+				go func(g int) {
+					defer wg.Done()
+					for k := g; k < len(batch); k += j.lanes {
+						if err := deliverPos(live, batch[k]); err != nil {
+							errs[g] = err
+							return
+						}
+					}
+				}(g)
+			}
+			wg.Wait()
+			for _, e := range errs {
+				if e != nil {
+					derr = e
+				}
+			}
+			r.Count("concurrent_batches", 1)
+		}
+		if derr != nil {
+			r.Violation("delivery-error/"+mode, fmt.Sprintf("world %s: %v", j.wid, derr), rec(pos, nil))
 			return
 		}
-		delivered[b.Ref] = pos + 1
-		k := j.w.Kind[b.Ref]
-		if k == "claim" || k == "delete" {
-			nClaims++
+		for _, p := range batch {
+			b := j.w.Blobs[j.order[p]]
+			delivered[b.Ref] = p + 1
+			k := j.w.Kind[b.Ref]
+			if k == "claim" || k == "delete" {
+				nClaims++
+			}
+			r.Count("redeliveries", len(j.dups[p]))
 		}
-		if k == "delete" {
-			for _, c := range j.w.Claims {
-				if c.Ref == b.Ref && delivered[c.Target] == 0 {
-					delBeforeTarget = true
+		for _, p := range batch {
+			b := j.w.Blobs[j.order[p]]
+			if j.w.Kind[b.Ref] == "delete" {
+				for _, c := range j.w.Claims {
+					if c.Ref == b.Ref && (delivered[c.Target] == 0 || delivered[c.Target] > p+1) {
+						delBeforeTarget = true
+					}
 				}
 			}
 		}
-		if (pos+1)%j.every != 0 && pos != len(j.order)-1 {
+		batch = batch[:0]
+		if !probePoint {
 			// light probe at every other prefix: the time orderings of the live corpus (cached,
 			// lazily sorted) against a corpus loaded from the same rows
-			if j.corpus {
+			if j.corpus && j.light {
 				live.Quiesce()
-				cp, err := hw.CopyKV(kv)
+				cp, err := hw.CopyKV(h.kv)
 				if err == nil {
 					if fresh, err := hw.NewIdx(cp, ms, true); err == nil {
 						a := lightProbe(live, j.w)
@@ -131,7 +343,7 @@ func runJob(r *ev.Run, j job, root string, sampleMu *sync.Mutex, sampled *int) {
 						r.Eval(len(a))
 						for _, d := range hw.DiffAnswers(a, b2) {
 							r.Violation("live-vs-reload/corpus/"+method(d)+"/light", fmt.Sprintf("world %s, after %d of %d arrivals: %s", j.wid, pos+1, len(j.order), d),
-								caseRec{CaseID: j.wid, World: j.w.Describe(), Order: j.order, Prefix: pos + 1, Corpus: true, KV: j.kv, Diffs: []string{d}})
+								rec(pos+1, []string{d}))
 							break
 						}
 					}
@@ -141,83 +353,195 @@ func runJob(r *ev.Run, j job, root string, sampleMu *sync.Mutex, sampled *int) {
 		}
 		live.Quiesce()
 		// reload: a fresh index (+corpus) over a copy of the rows
-		cp, err := hw.CopyKV(kv)
+		cp, err := hw.CopyKV(h.kv)
 		if err != nil {
 			r.Inconclusive("copy kv: " + err.Error())
 			return
 		}
-		fresh, err := hw.NewIdx(cp, ms, true)
+		fresh, err := hw.NewIdx(cp, ms, j.corpus)
 		if err != nil {
-			r.Violation("reload-fails/"+mode, fmt.Sprintf("world %s prefix %d: opening a fresh index over the persisted rows failed: %v", j.wid, pos+1, err),
-				caseRec{CaseID: j.wid, Order: j.order, Prefix: pos + 1, Corpus: j.corpus, KV: j.kv})
+			r.Violation("reload-fails/"+mode, fmt.Sprintf("world %s prefix %d: opening a fresh index over the persisted rows failed: %v", j.wid, pos+1, err), rec(pos+1, nil))
 			return
 		}
-		freshCorpus := fresh.Corpus
-		liveCorpus := live.Corpus
-		// The fresh index without corpus answers the index-level questions the same way a
-		// corpus-less live index must; to compare like with like, the reloaded side gets a
-		// corpus only when the live side has one.
-		var freshForCompare *hw.Idx = fresh
-		if !j.corpus {
-			cp2, _ := hw.CopyKV(kv)
-			freshForCompare, err = hw.NewIdx(cp2, ms, false)
-			if err != nil {
-				r.Violation("reload-fails/"+mode, fmt.Sprintf("world %s prefix %d: %v", j.wid, pos+1, err), nil)
-				return
+		// To compare like with like, the reloaded side gets a corpus only when the live side has one.
+		a := hw.Probe(live.Index, live.Corpus, opts)
+		b2 := hw.Probe(fresh.Index, fresh.Corpus, opts)
+		if os.Getenv("C06_DEBUG") != "" {
+			for i := range a {
+				if strings.HasPrefix(a[i].Q, "Corpus.EnumeratePermanodesCreated") {
+					fmt.Fprintf(os.Stderr, "DBG %s order=%v pos=%d kind=%s %s live=%s fresh=%s\n", j.wid, j.order, pos, j.w.Kind[j.w.Blobs[j.order[pos]].Ref], a[i].Q, a[i].A, b2[i].A)
+				}
 			}
-			freshCorpus = nil
 		}
-		a := hw.Probe(live.Index, liveCorpus, opts)
-		b2 := hw.Probe(freshForCompare.Index, freshCorpus, opts)
 		r.Eval(len(a))
 		if nClaims > 0 {
-			r.Distinct(fmt.Sprintf("%s/%v/%d/%s/%s", j.wid, j.order, pos, mode, j.kv))
+			r.Distinct(fmt.Sprintf("%s/%v/%d/%s/%s/%d/%d/%d", j.wid, j.order, pos, mode, j.kv, j.restartAt, len(j.dups), j.lanes))
 		}
 		r.Note("modes", mode)
-		r.Note("kv_kinds", j.kv)
-		if n1, _, _ := live.Index.VerifPending(); n1 > 0 {
+		r.Note("kv_kinds", h.kind)
+		r.Note("families", j.family)
+		npend, _, _ := live.Index.VerifPending()
+		if npend > 0 {
 			r.Note("moments", "with-pending-dependencies")
 		} else {
 			r.Note("moments", "no-pending")
 		}
-		diffs := hw.DiffAnswers(a, b2)
-		if len(diffs) > 0 {
-			rec := caseRec{CaseID: j.wid, World: j.w.Describe(), Order: j.order, Prefix: pos + 1, Corpus: j.corpus, KV: j.kv, Prefill: j.prefill, Diffs: diffs}
-			for i, bb := range j.w.Blobs {
-				rec.Blobs = append(rec.Blobs, fmt.Sprintf("%d:%s:%s", i, j.w.Kind[bb.Ref], bb.Ref))
+		if restarted {
+			r.Note("moments", "live-side-loaded-then-updated")
+			if j.corpus {
+				r.Note("moments", "live-corpus-loaded-then-updated")
 			}
-			if len(rec.Diffs) > 12 {
-				rec.Diffs = rec.Diffs[:12]
-			}
-			seen := map[string]bool{}
-			for _, d := range diffs {
-				m := method(d)
-				sig := "live-vs-reload/" + mode + "/" + m
-				if delBeforeTarget {
-					sig += "/delete-before-target"
-				}
-				if seen[sig] {
-					continue
-				}
-				seen[sig] = true
-				r.Violation(sig, fmt.Sprintf("world %s, after %d of %d arrivals: %s", j.wid, pos+1, len(j.order), d), rec)
-			}
+		}
+		if diffs := hw.DiffAnswers(a, b2); len(diffs) > 0 {
+			report("live-vs-reload", pos+1, diffs)
 			return
 		}
+		if last && j.corpus && j.search {
+			sa := searchProbe(live, j.w, opts)
+			sb := searchProbe(fresh, j.w, opts)
+			r.Eval(len(sa))
+			r.Count("search_handler_queries", len(sa))
+			if diffs := hw.DiffAnswers(sa, sb); len(diffs) > 0 {
+				report("live-vs-reload", pos+1, diffs)
+				return
+			}
+		}
+		if last && h.kind != "memory" {
+			// the real thing: close the file the live index wrote and open it again
+			if err := h.reopen(); err != nil {
+				r.Inconclusive(fmt.Sprintf("world %s: re-opening the %s KV: %v", j.wid, j.kv, err))
+				return
+			}
+			re, err := hw.NewIdx(h.kv, ms, j.corpus)
+			if err != nil {
+				r.Violation("reload-fails/"+mode, fmt.Sprintf("world %s: opening an index over the closed and re-opened %s file failed: %v", j.wid, j.kv, err), rec(pos+1, nil))
+				return
+			}
+			b3 := hw.Probe(re.Index, re.Corpus, opts)
+			r.Eval(len(b3))
+			r.Count("reopened_kv_files", 1)
+			r.Note("reopened_file_kinds", h.kind)
+			if diffs := hw.DiffAnswers(a, b3); len(diffs) > 0 {
+				report("live-vs-reopened-file", pos+1, diffs)
+				return
+			}
+		}
 		sampleMu.Lock()
-		if *sampled < 3 && pos == len(j.order)-1 {
+		if *sampled < 3 && last {
 			*sampled++
-			r.Sample(map[string]any{"world": j.w.Describe(), "order": j.order, "mode": mode, "questions_per_prefix": len(a), "example_question": a[len(a)/2].Q, "example_answer": a[len(a)/2].A})
+			r.Sample(map[string]any{"world": j.w.Describe(), "order": j.order, "mode": mode, "kv": j.kv, "restart_before_position": j.restartAt, "redeliveries": j.dups, "concurrent_deliverers": j.lanes,
+				"questions_per_prefix": len(a), "example_question": clip(a[len(a)/2].Q, 300), "example_answer": clip(a[len(a)/2].A, 300)})
 		}
 		sampleMu.Unlock()
 	}
 }
 
+func clip(s string, n int) string {
+	if len(s) <= n {
+		return s
+	}
+	return s[:n] + fmt.Sprintf("...(%d bytes)", len(s))
+}
+
+// planner feeds jobs; every choice comes from seeded generators.
+type planner struct {
+	r      *ev.Run
+	jobs   chan job
+	kinds  []string
+	nextKV int
+}
+
+func (p *planner) kv() string {
+	k := p.kinds[p.nextKV%len(p.kinds)]
+	p.nextKV++
+	return k
+}
+
+// historyMode decorates a job with one of the history modes, chosen by m.
+func historyMode(j *job, m int, rng *rand.Rand) {
+	n := len(j.order)
+	addDups := func() {
+		j.dups = map[int][]int{}
+		nd := 1 + rng.Intn(3)
+		for k := 0; k < nd; k++ {
+			p := rng.Intn(n)
+			q := rng.Intn(p + 1)
+			if rng.Intn(3) == 0 {
+				q = p // immediate duplicate
+			}
+			j.dups[p] = append(j.dups[p], q)
+		}
+	}
+	switch m {
+	case 1:
+		if n > 2 {
+			j.restartAt = 1 + rng.Intn(n-1)
+		}
+	case 2:
+		addDups()
+	case 3:
+		j.lanes = 2 + rng.Intn(3)
+		if j.every < 3 {
+			j.every = 3 + rng.Intn(3)
+		}
+		if rng.Intn(2) == 0 {
+			addDups()
+		}
+	case 4:
+		if n > 2 {
+			j.restartAt = 1 + rng.Intn(n-1)
+		}
+		addDups()
+		if rng.Intn(2) == 0 {
+			j.lanes = 2 + rng.Intn(2)
+			if j.every < 3 {
+				j.every = 3
+			}
+		}
+	}
+}
+
+// keysFirst returns order with the public-key blobs moved to the front.
+func keysFirst(w *hw.World, order []int) []int {
+	var keys, rest []int
+	for _, bi := range order {
+		if w.Kind[w.Blobs[bi].Ref] == "key" {
+			keys = append(keys, bi)
+		} else {
+			rest = append(rest, bi)
+		}
+	}
+	return append(keys, rest...)
+}
+
+func permutations(n int) [][]int {
+	var out [][]int
+	a := make([]int, n)
+	for i := range a {
+		a[i] = i
+	}
+	var rec func(k int)
+	rec = func(k int) {
+		if k == n {
+			out = append(out, append([]int(nil), a...))
+			return
+		}
+		for i := k; i < n; i++ {
+			a[k], a[i] = a[i], a[k]
+			rec(k + 1)
+			a[k], a[i] = a[i], a[k]
+		}
+	}
+	rec(0)
+	return out
+}
+
 func run(r *ev.Run) {
 	log.SetOutput(io.Discard)
 	index.SetVerboseCorpusLogging(false)
-	r.Assume("'a fresh index opened over the same persisted rows' is built over a copy of the rows in a memory KV (two handles on one leveldb/kv/sqlite file are not possible)")
+	r.Assume("'a fresh index opened over the same persisted rows' is built over a copy of the rows in a memory KV (two handles on one leveldb/kv/sqlite file are not possible); at the end of every history on a file-backed KV, and at mid-history re-opens, the file itself is closed and opened again")
 	r.Assume("lookups are made at quiescent points of the out-of-order reindexer (hook); pending dependencies may still exist")
+	r.Assume("answers whose order the API documents as undefined (ForeachClaim, ForeachClaimBack, EnumerateBlobMeta, EnumerateCamliBlobs, EnumeratePermanodesByNodeTypes, directory members, unsorted search results) are compared as sets")
 	root := ev.Scratch("c06")
 	defer os.RemoveAll(root)
 	jobs := make(chan job, 32)
@@ -233,13 +557,30 @@ func run(r *ev.Run) {
 			}
 		}()
 	}
+	p := &planner{r: r, jobs: jobs, kinds: []string{"memory", "leveldb", "kv", "sqlite"}}
+	p.genericWorlds()
+	p.chainWorlds()
+	p.directedWorlds()
+	close(jobs)
+	wg.Wait()
+	r.Require("modes", "corpus", "nocorpus")
+	r.Require("moments", "with-pending-dependencies", "no-pending", "live-side-loaded-then-updated", "live-corpus-loaded-then-updated")
+	r.Require("history_modes", "plain", "mid-history-reopen", "re-delivery", "concurrent-deliverers")
+	r.Require("kv_kinds", "memory", "leveldb", "kv", "sqlite")
+	r.Require("reopened_file_kinds", "leveldb", "kv", "sqlite")
+	r.Require("families", "generic", "delete-chain", "long-values", "tied-dates", "node-types", "media", "content-time")
+	r.Require("world_features", "delete-of-permanode", "delete-of-claim", "delete-of-delete", "directory", "nested-bytes",
+		"delete-chain-depth-3", "delete-chain-on-permanode", "delete-chain-on-claim", "long-indexed-value", "long-path-suffix",
+		"tied-claim-dates", "node-type", "media-jpg", "media-mp3", "media-png", "media-shared-wholeref")
+	r.Require("chain_orders", "exhaustive-depth3-permanode", "exhaustive-depth3-claim")
+}
+
+// genericWorlds: the C05 generator, seeded orders, all history modes, all KV kinds.
+func (p *planner) genericWorlds() {
+	r := p.r
 	wrng := r.Rand("worlds")
-	nWorlds := r.Pick(72, 240)
-	nOrders := r.Pick(6, 12)
-	kvKinds := []string{"memory"}
-	if r.Thorough() {
-		kvKinds = []string{"memory", "leveldb", "kv", "sqlite"}
-	}
+	nWorlds := r.Pick(42, 240)
+	nOrders := r.Pick(5, 12)
 	for i := 0; i < nWorlds; i++ {
 		wo := hw.WorldOpts{TwoSigners: i%3 == 1, Label: fmt.Sprintf("w%d", i), Dangling: i%5 == 4}
 		switch i % 6 {
@@ -260,13 +601,13 @@ func run(r *ev.Run) {
 		w := hw.GenWorld(wrng, wo)
 		w.Blobs = w.DepOrder()
 		wid := fmt.Sprintf("world%d;", i)
+		orng := rand.New(rand.NewSource(wrng.Int63()))
 		if !r.Only(wid) {
 			continue
 		}
 		for f := range w.Features {
 			r.Note("world_features", f)
 		}
-		orng := rand.New(rand.NewSource(wrng.Int63()))
 		for o := 0; o < nOrders; o++ {
 			order := orng.Perm(len(w.Blobs))
 			if o == 0 {
@@ -278,16 +619,171 @@ func run(r *ev.Run) {
 			if len(order) > 12 {
 				every = 3
 			}
-			jobs <- job{w: w, wid: wid, order: order, corpus: o%2 == 0, kv: kvKinds[(i+o)%len(kvKinds)], prefill: o%3 == 2, every: every}
+			j := job{family: "generic", w: w, wid: wid, order: order, corpus: o%2 == 0, kv: p.kv(), prefill: o%3 == 2, every: every, light: true, search: o < 2}
+			// orders 0,1 plain; then the history modes in turn (the corpus flag alternates within each mode over the worlds)
+			if o >= 2 {
+				historyMode(&j, 1+(o-2+i)%4, orng)
+				j.corpus = (o+i)%2 == 0
+			}
+			p.jobs <- j
 		}
 	}
-	close(jobs)
-	wg.Wait()
-	r.Require("modes", "corpus", "nocorpus")
-	r.Require("moments", "with-pending-dependencies", "no-pending")
-	r.Require("world_features", "delete-of-permanode", "delete-of-claim", "delete-of-delete", "directory", "nested-bytes")
 }
 
+// chainWorlds: delete/undelete chains on one target, delivered in EVERY arrival order (small
+// worlds), so that each link is met before and after its target, and before and after the link
+// that revives or kills it.
+func (p *planner) chainWorlds() {
+	r := p.r
+	crng := r.Rand("chains")
+	type spec struct {
+		name      string
+		depth     int
+		on        string
+		withClaim bool
+		two       bool
+		fixed     int // number of leading blobs (in dependency order) that keep their place
+		sample    int // 0 = every permutation of the rest; else that many seeded permutations
+		note      string
+	}
+	specs := []spec{
+		// key first, then every order of {permanode, title claim, D1, D2, D3}: 120 histories
+		{"d3pn", 3, "permanode", true, false, 1, 0, "exhaustive-depth3-permanode"},
+		// key and permanode first, then every order of {claim, D1, D2, D3}: 24 histories
+		{"d3cl", 3, "claim", true, false, 2, 0, "exhaustive-depth3-claim"},
+		// depth 4 on the bare permanode, a seeded sample of the 120 orders
+		{"d4pn", 4, "permanode", false, true, 2, r.Pick(24, 0), "depth4-permanode"},
+	}
+	if r.Thorough() {
+		specs = append(specs,
+			// the key takes part in the permutation: 720 histories
+			spec{"d3pnk", 3, "permanode", true, false, 0, 0, "exhaustive-depth3-permanode-key-anywhere"},
+			spec{"d4cl", 4, "claim", true, false, 2, 0, "exhaustive-depth4-claim"},
+			spec{"d5pn", 5, "permanode", false, false, 1, 240, "depth5-permanode"},
+		)
+	}
+	for si, sp := range specs {
+		w := hw.DeleteChainWorld(crng, fmt.Sprintf("c%d", si), sp.depth, sp.on, sp.withClaim, sp.two)
+		w.Blobs = w.DepOrder()
+		wid := fmt.Sprintf("chain-%s;", sp.name)
+		orng := rand.New(rand.NewSource(crng.Int63()))
+		if !r.Only(wid) {
+			continue
+		}
+		for f := range w.Features {
+			r.Note("world_features", f)
+		}
+		n := len(w.Blobs)
+		var perms [][]int
+		if sp.sample == 0 {
+			perms = permutations(n - sp.fixed)
+		} else {
+			for k := 0; k < sp.sample; k++ {
+				perms = append(perms, orng.Perm(n-sp.fixed))
+			}
+		}
+		for pi, pm := range perms {
+			order := make([]int, 0, n)
+			for k := 0; k < sp.fixed; k++ {
+				order = append(order, k)
+			}
+			for _, x := range pm {
+				order = append(order, sp.fixed+x)
+			}
+			j := job{family: "delete-chain", w: w, wid: wid, order: order, corpus: pi%2 == 0, kv: "memory", every: 1, light: false}
+			if pi%8 == 7 {
+				j.kv = p.kv()
+			}
+			// a slice of the orders also with a mid-history re-open / re-deliveries
+			if pi%5 == 4 {
+				historyMode(&j, 1+(pi/5)%2, orng)
+			}
+			p.jobs <- j
+		}
+		r.Note("chain_orders", sp.note)
+		r.Count("chain_histories", len(perms))
+	}
+}
+
+// directedWorlds: generated worlds extended with the C06 patterns.
+func (p *planner) directedWorlds() {
+	r := p.r
+	drng := r.Rand("directed")
+	type fam struct {
+		name   string
+		n      int
+		orders int
+		extra  hw.C06Extra
+		kinds  []string // KV kinds in turn (nil = all in turn)
+		opts   func(i int) hw.WorldOpts
+	}
+	plain := func(i int) hw.WorldOpts {
+		return hw.WorldOpts{TwoSigners: i%2 == 1, Permanodes: 1 + i%3, MaxClaims: 3, NoFiles: true, Deletes: i % 3}
+	}
+	fams := []fam{
+		// oversized indexed values: mostly on the kvfile KV ("kv"), which has its own batch code
+		{"long-values", r.Pick(6, 24), r.Pick(3, 6), hw.C06Extra{LongValues: 4}, []string{"kv", "leveldb", "kv", "sqlite", "kv", "memory"}, plain},
+		{"tied-dates", r.Pick(6, 30), r.Pick(4, 8), hw.C06Extra{TiedDates: true}, nil, plain},
+		{"node-types", r.Pick(6, 24), r.Pick(3, 6), hw.C06Extra{NodeTypes: true}, nil, plain},
+		{"media", r.Pick(6, 24), r.Pick(3, 6), hw.C06Extra{Media: true, NodeTypes: true}, nil, func(i int) hw.WorldOpts {
+			return hw.WorldOpts{TwoSigners: i%3 == 2, Permanodes: 2 + i%2, MaxClaims: 2, NoFiles: i%2 == 0, ForceDir: i%2 == 1}
+		}},
+		// a permanode's time comes from its camliContent file and crosses another permanode's time
+		{"content-time", r.Pick(6, 24), r.Pick(5, 10), hw.C06Extra{}, []string{"memory"}, func(i int) hw.WorldOpts {
+			return hw.WorldOpts{ContentTime: true, Permanodes: 2 + i%2, MaxClaims: i % 2, NoFiles: true}
+		}},
+	}
+	for _, f := range fams {
+		for i := 0; i < f.n; i++ {
+			wo := f.opts(i)
+			wo.Label = fmt.Sprintf("%s%d", f.name, i)
+			w := hw.GenWorld(drng, wo)
+			hw.ExtendC06(w, drng, f.extra)
+			w.Blobs = w.DepOrder()
+			wid := fmt.Sprintf("%s%d;", f.name, i)
+			orng := rand.New(rand.NewSource(drng.Int63()))
+			if !r.Only(wid) {
+				continue
+			}
+			for ft := range w.Features {
+				r.Note("world_features", ft)
+			}
+			for o := 0; o < f.orders; o++ {
+				order := orng.Perm(len(w.Blobs))
+				if o == 0 {
+					for k := range order {
+						order[k] = k
+					}
+				}
+				every := 1
+				if len(order) > 10 {
+					every = 3
+				}
+				if len(order) > 20 {
+					every = 5
+				}
+				kv := ""
+				if f.kinds != nil {
+					kv = f.kinds[(i*f.orders+o)%len(f.kinds)]
+				} else {
+					kv = p.kv()
+				}
+				j := job{family: f.name, w: w, wid: wid, order: order, corpus: (o+i)%3 != 2, kv: kv, prefill: o%4 == 3, every: every, light: false, search: true}
+				if f.name == "content-time" && o%3 != 1 {
+					order = keysFirst(w, order) // otherwise most histories are "everything waits for the key"
+				}
+				if f.name == "content-time" {
+					// the window between a claim and the file it points at is one arrival wide
+					j.every, j.light, j.corpus = 1, true, o%4 != 3
+				}
+				if o >= 2 && !(f.name == "content-time" && o%2 == 0) {
+					historyMode(&j, 1+(o+i)%4, orng)
+				}
+				p.jobs <- j
+			}
+		}
+	}
+}
 
 // lightProbe asks only the time-ordering questions (cheap enough for every prefix).
 func lightProbe(x *hw.Idx, w *hw.World) []hw.Answer {
@@ -306,3 +802,5 @@ func lightProbe(x *hw.Idx, w *hw.World) []hw.Answer {
 	}
 	return out
 }
+
+var _ = sort.Strings
